@@ -161,6 +161,25 @@ def generate():
                 raise Unsupported("add no longer contains: " + want.replace("\n", " "))
         remf = find_func(logger, "remove")
         src = ast.unparse(remf)
+        # the loop body must recompute min_level and publish the registry BEFORE handler.stop() (user code that
+        # may raise); the shape "recompute after stop() / once after the loop" is refuted by
+        # C01.late_min_level_update_refuted
+        rloops = [n for n in ast.walk(remf) if isinstance(n, ast.For) and ast.unparse(n.iter) == "handler_ids"]
+        if len(rloops) != 1:
+            raise Unsupported("remove: loop over handler_ids not found")
+        stmts = [ast.unparse(st) for st in rloops[0].body]
+        pos = {}
+        for i, st in enumerate(stmts):
+            if st.startswith("self._core.min_level ="):
+                pos.setdefault("min", i)
+            if st == "self._core.handlers = handlers":
+                pos.setdefault("publish", i)
+            if st == "handler.stop()":
+                pos.setdefault("stop", i)
+        if not ("min" in pos and "publish" in pos and "stop" in pos and pos["min"] < pos["stop"] and pos["publish"] < pos["stop"]):
+            raise Unsupported("remove: min_level is not recomputed (and the registry published) before handler.stop() "
+                              "inside the loop - refuted shape, see C01.late_min_level_update_refuted; loop body: "
+                              + " ; ".join(stmts))
         for want in ("levelnos = (h.levelno for h in handlers.values())",
                      "self._core.min_level = min(levelnos, default=float('inf'))",
                      "handlers = self._core.handlers.copy()\n            handler = handlers.pop(handler_id)",
